@@ -264,10 +264,73 @@ class Gen:
             s += ' using ' + ', '.join(us)
         return s
 
+    def focused_join(self):
+        """joins of 2-3 operands in every operand order (table / model / sub-select first), ON clauses of 1-3 conjuncts
+        (equality with another operand, constant on either side, IN list, IN sub-select, other comparison, unqualified
+        column), optional WHERE, with and without ORDER BY / LIMIT / OFFSET (the limit push-down path of the first fetch)"""
+        r = self.r
+        n = r.choice([2, 2, 2, 3])
+        kinds = [r.choice(['table', 'table', 'model', 'sub', 'ts']) for _ in range(n)]
+        ops = []
+        for i, kd in enumerate(kinds):
+            a = 'j%d' % i
+            if kd == 'table':
+                t = r.choice(TABLES[:6])
+            elif kd == 'model':
+                t = r.choice(PLAIN)
+            elif kd == 'ts':
+                t = r.choice(TSM)
+            else:
+                t = '(%s)' % self.simple_select(1)
+            ops.append('%s as %s' % (t, a) if (kd == 'sub' or r.random() < 0.9) else t)
+        al = ['j%d' % i for i in range(n)]
+
+        def conj(i):
+            k = r.random()
+            me = '%s.%s' % (al[i], r.choice(COLS + ['k']))
+            if k < 0.30:
+                o = '%s.%s' % (r.choice(al[:i] + al[i + 1:]), r.choice(COLS))
+                return '%s = %s' % ((me, o) if r.random() < 0.5 else (o, me))
+            if k < 0.55:
+                c = self.const()
+                return '%s = %s' % ((me, c) if r.random() < 0.6 else (c, me))
+            if k < 0.65:
+                return '%s in (1, 2, 3)' % me
+            if k < 0.73:
+                return '%s in (select id from %s)' % (me, r.choice(TABLES[:4]))
+            if k < 0.85:
+                return '%s %s %s' % (me, r.choice(['>', '<', '<>', '>=']), r.choice([self.const(), '%s.%s' % (r.choice(al), r.choice(COLS))]))
+            if k < 0.93:
+                return '%s = %s' % (me, r.choice(COLS + ['order_id']))
+            return '%s between 1 and 5' % me
+        s = ops[0]
+        for i in range(1, n):
+            s += ' %s %s' % (r.choice(['join', 'join', 'left join', 'inner join', 'right join']), ops[i])
+            m = r.choice([0, 1, 1, 2, 2, 3])
+            if m:
+                s += ' on ' + (' %s ' % r.choice(['and', 'and', 'and', 'or'])).join(conj(r.choice([i, i, i, 0])) for _ in range(m))
+        q = 'select %s from %s' % (r.choice(['*', '*', '%s.*' % al[0], '%s.x, %s.y' % (al[0], al[-1]), 'count(*)']), s)
+        if r.random() < 0.5:
+            q += ' where ' + ' and '.join(conj(r.randrange(n)) for _ in range(r.choice([1, 1, 2])))
+        if r.random() < 0.3:
+            q += ' order by %s.%s' % (r.choice(al), r.choice(COLS))
+        k = r.random()
+        if k < 0.45:
+            q += ' limit %d' % r.choice([1, 5, 0])
+            if r.random() < 0.4:
+                q += ' offset 2'
+        elif k < 0.55:
+            q += ' offset 2'
+        if r.random() < 0.25 and any(kd in ('model', 'ts') for kd in kinds):
+            q += ' using %s=%s' % (r.choice(['partition_size', 'a', '%s.partition_size' % r.choice(al)]), r.choice(['10', "'v'"]))
+        return q
+
     def statement(self):
         r = self.r
         self.n = 0
         k = r.random()
+        if k < 0.14:
+            return self.focused_join()
         if k < 0.62:
             return self.select(0)
         if k < 0.72:
@@ -292,7 +355,7 @@ import re as _re
 
 IDENT_CLASSES = {
     'cte': _re.compile(r'cte\d+$|c\d?$', _re.I),
-    'alias': _re.compile(r'a\d+$|b\d$|t[ab]$|s$|df$|sq$|mx$|p\d?$', _re.I),
+    'alias': _re.compile(r'a\d+$|j\d$|b\d$|t[ab]$|s$|df$|sq$|mx$|p\d?$', _re.I),
     'integration': _re.compile(r'int\d$|proj$|files$|views$|mindsdb$', _re.I),
     'table': _re.compile(r'tab\d+$|t9$|f1$|v1$|sch$|raw$', _re.I),
     'model': _re.compile(r'm\d$|ts\d$|fn$', _re.I),
@@ -394,6 +457,10 @@ def _join_case(rng, top=True):
         last = i == n - 1
         if use_cte and i == 0:
             ops.append(dict(kind='cte', text='cte1 as %s' % a, alias=a))
+        elif i == 0 and r.random() < 0.22:
+            # the model written first: with two operands 'model JOIN table' is swapped by the planner, with more operands it is
+            # "Predictor can't be first element of join syntax"
+            ops.append(dict(kind='model', text='%s as %s' % (r.choice(['proj.m1', 'proj.m2']), a), alias=a))
         elif k < 0.5 or (i == 0 and k < 0.8):
             ops.append(dict(kind='table', text='%s as %s' % (r.choice(['int1.tab1', 'int1.tab2', 'int2.tab3', 'int2.tab4']), a), alias=a))
         elif k < 0.78:
@@ -422,15 +489,24 @@ def _join_case(rng, top=True):
         join_sql += ' %s %s' % (jt, ops[i]['text'])
         conds, dc, other = [], [], False
         others = [x for x in refable if x != i]
-        for _ in range(r.choice([0, 1, 1, 2]) if (i in refable and others) else 0):
+        for _ in range(r.choice([0, 1, 1, 2, 3]) if (i in refable and others) else 0):
             k = r.random()
-            if k < 0.6:
+            if k < 0.45:
                 j = r.choice(others)
                 l, rr = 'a%d.id' % i, 'a%d.%s' % (j, r.choice(['id', 'x']))
                 conds.append('%s = %s' % ((l, rr) if r.random() < 0.5 else (rr, l)))
                 dc.append(j)
-            elif k < 0.8:
-                conds.append('a%d.x = %s' % (i, r.choice(['1', "'s'"])))
+            elif k < 0.70:
+                # a constant restricts the joined operand (either side)
+                c_ = r.choice(['1', "'s'", '2.5'])
+                col = 'a%d.%s' % (i, r.choice(['x', 'k']))
+                conds.append('%s = %s' % ((col, c_) if r.random() < 0.6 else (c_, col)))
+            elif k < 0.78:
+                # an unqualified column resolves to no table: not a data condition
+                conds.append('a%d.id = %s' % (i, r.choice(['order_id', 'y'])))
+            elif k < 0.86:
+                conds.append('a%d.x in (1, 2)' % i)
+                other = True
             else:
                 j = r.choice(others)
                 conds.append('a%d.y %s a%d.y' % (i, r.choice(['>', '<', '<>']), j))
